@@ -472,9 +472,7 @@ impl Cnf {
             weight_vec.push(weights.var_weight(VarLabel::new(i as u64)));
         }
         for assgn in AssignmentIter::new(self.num_vars()) {
-            if assgn.is_empty() {
-                break;
-            };
+            // a CNF over zero variables has exactly one (empty) assignment
             if self.eval(&assgn) {
                 let assgn_w = assgn
                     .iter()
